@@ -55,6 +55,12 @@ def quiet(f, *a, **k):
         return f(*a, **k)
 
 
+# wave 5: Props/C01w (settlement df of a deposit knot must be the built curve's own; knot and valuation must use one accrual factor)
+from props.c01_w5 import W5_PROPS, W5_RULE  # noqa: E402
+PROPS = PROPS + [m_ for m_ in W5_PROPS if m_ not in PROPS]
+RULE = RULE + W5_RULE
+
+
 def touches_leap(v, d):
     import calendar
     from financepy.utils.date import Date
@@ -898,6 +904,11 @@ def run(ctx):
         ctx.violation('IborSingleCurve: bootstrap raised on an admissible quote set', dw | {'error': type(ex).__name__ + ': ' + str(ex)[:120]},
                       finding='C01/spot-lag-without-swaps', clause='build-raises')
     ctx.count('witness/structural', 17)
+    # ---- wave 5 (props/c01_w5.py): every two-date day count x month-end maturities, spot lags 0..3 / O/N-T/N-spot ladders, and dual
+    # curves on a discount curve that is INDEPENDENT of the index quotes - through the same oracles (check_curve / tie_curve)
+    from props import c01_w5  # noqa: E402
+    c01_w5.run_extra(ctx, {'check_curve': check_curve, 'tie_curve': tie_curve, 'tick': tick, 'quiet': quiet, 'ds': ds, 'mk_depo': mk_depo,
+                           'mk_fra': mk_fra, 'mk_swap': mk_swap, 'mk_ois': mk_ois, 'newton_log': newton_log, 'local': local})
     # ---- the implementation's knot vectors through the C02 interpolation model
     if ops and drivers_ok:
         try:
@@ -1047,6 +1058,12 @@ def replay(ctx, path):
         d, m, y = map(int, s.split('-'))
         return Date(d, m, y)
     print('replay:', v['what'], '| clause', v.get('clause'))
+    if str(c.get('generator', '')).startswith('wave5'):
+        from props import c01_w5
+        c01_w5.replay_case(v, quiet)
+        print(' recorded case:', json.dumps(c, default=str)[:1200])
+        print(f'VIOLATION property=C01 replay={path}')
+        return 1
     vd = Dd(c['valuation'])
     ddc = DCT[c.get('deposit_dc', 'ACT_360')]
     depos = [IborDeposit(Dd(a), Dd(b), r, DCT[x_[0]] if x_ else ddc) for a, b, r, *x_ in c.get('deposits', [])]
